@@ -372,6 +372,11 @@ result_t DateTimeDataType::readSymbols(size_t offset, size_t length, const Symbo
             y++;
             m -= 12;
           }
+          if (mjd < 15020 + 31 + 28) {  // the formula above is valid from 01.03.1900 only
+            y = 0;
+            m = mjd < 15020 + 31 ? 1 : 2;
+            d = mjd - 15020 - (m == 1 ? 0 : 31) + 1;
+          }
           *output << dec << setfill('0') << setw(2) << static_cast<unsigned>(d) << "."
                   << setw(2) << static_cast<unsigned>(m) << "." << static_cast<unsigned>(y + 1900);
           break;
@@ -527,6 +532,12 @@ result_t DateTimeDataType::writeSymbols(size_t offset, size_t length, istringstr
             int y = (value < 100 ? value + 2000 : value) - 1900;
             int l = last <= 2 ? 1 : 0;
             int mjd = 14956 + lastLast + static_cast<int>((y-l)*365.25) + static_cast<int>((last+1+l*12)*30.6001);
+            if (y == 0 && l == 1) {  // the formula above is valid from 01.03.1900 only
+              if (last == 2 && lastLast > 28) {
+                return RESULT_ERR_OUT_OF_RANGE;  // invalid date
+              }
+              mjd = 15020 + (last == 1 ? 0 : 31) + lastLast - 1;
+            }
             value = mjd - 15020;  // 01.01.1900
             output->dataAt(offset + index) = (symbol_t)(value&0xff);
             value >>=  8;
